@@ -288,3 +288,141 @@ func InstrsDeep(fn *ssa.Function, f func(*ssa.Function, ssa.Instruction)) {
 		}
 	}
 }
+
+// GuardedByStable is GuardedBy with invalidation: a guard established by
+// crossing a pred edge is lost again when a kill instruction executes (e.g. a
+// store to the tested variable).  Returns false when some path reaches site
+// in the unguarded state.
+func GuardedByStable(site ssa.Instruction, pred func(r Rel) bool, kill func(ssa.Instruction) bool) bool {
+	fn := site.Parent()
+	if fn == nil || len(fn.Blocks) == 0 {
+		return false
+	}
+	type st struct {
+		b *ssa.BasicBlock
+		g bool
+	}
+	seen := map[st]bool{}
+	work := []st{{fn.Blocks[0], false}}
+	seen[work[0]] = true
+	for len(work) > 0 {
+		cur := work[len(work)-1]
+		work = work[:len(work)-1]
+		g := cur.g
+		for _, in := range cur.b.Instrs {
+			if in == site && !g {
+				return false
+			}
+			if kill != nil && kill(in) {
+				g = false
+			}
+		}
+		for _, s := range cur.b.Succs {
+			ng := g
+			if c, t, ok := EdgeCond(cur.b, s); ok && pred(Normalize(c, t)) {
+				ng = true
+			}
+			n := st{s, ng}
+			if !seen[n] {
+				seen[n] = true
+				work = append(work, n)
+			}
+		}
+	}
+	return true
+}
+
+// Callers returns the set of functions with a call-graph edge to fn.
+func (p *Prog) Callers(fn *ssa.Function) map[*ssa.Function][]ssa.CallInstruction {
+	out := map[*ssa.Function][]ssa.CallInstruction{}
+	n := p.CG().Nodes[fn]
+	if n == nil {
+		return out
+	}
+	for _, e := range n.In {
+		out[e.Caller.Func] = append(out[e.Caller.Func], e.Site)
+	}
+	return out
+}
+
+// MustDo reports whether every path from fn's entry to a return executes an
+// instruction satisfying pred, directly or inside a statically called
+// function of the program (depth-bounded, memoised; recursion counts as no).
+type MustDo struct {
+	Pred  func(ssa.Instruction) bool
+	Depth int
+	memo  map[*ssa.Function]int
+}
+
+func (m *MustDo) Fn(fn *ssa.Function) bool { return m.fn(fn, 0) }
+
+func (m *MustDo) fn(fn *ssa.Function, d int) bool {
+	if fn == nil || fn.Blocks == nil || d > m.Depth {
+		return false
+	}
+	if m.memo == nil {
+		m.memo = map[*ssa.Function]int{}
+	}
+	switch m.memo[fn] {
+	case 1:
+		return true
+	case 2, 3:
+		return false
+	}
+	m.memo[fn] = 3
+	ok, _ := MustPass(fn, nil, IsReturn, func(in ssa.Instruction) bool { return m.Instr(in, d) })
+	if ok {
+		m.memo[fn] = 1
+	} else {
+		m.memo[fn] = 2
+	}
+	return ok
+}
+
+// Instr: the instruction satisfies pred or is a plain call of a function that must.
+func (m *MustDo) Instr(in ssa.Instruction, d int) bool {
+	if m.Pred(in) {
+		return true
+	}
+	if c, ok := in.(*ssa.Call); ok {
+		if f := c.Call.StaticCallee(); f != nil && f.Blocks != nil {
+			return m.fn(f, d+1)
+		}
+	}
+	return false
+}
+
+// MayDo reports whether fn (or a static callee, depth-bounded) contains an
+// instruction satisfying pred.
+func MayDo(fn *ssa.Function, pred func(ssa.Instruction) bool, depth int) bool {
+	seen := map[*ssa.Function]bool{}
+	var rec func(f *ssa.Function, d int) bool
+	rec = func(f *ssa.Function, d int) bool {
+		if f == nil || f.Blocks == nil || seen[f] || d > depth {
+			return false
+		}
+		seen[f] = true
+		found := false
+		InstrsDeep(f, func(_ *ssa.Function, in ssa.Instruction) {
+			if found {
+				return
+			}
+			if pred(in) {
+				found = true
+				return
+			}
+			if c := AsCallAny(in); c != nil {
+				if g := c.Common().StaticCallee(); g != nil && rec(g, d+1) {
+					found = true
+				}
+			}
+		})
+		return found
+	}
+	return rec(fn, 0)
+}
+
+func AsCallAny(in ssa.Instruction) ssa.CallInstruction {
+	c, _ := in.(ssa.CallInstruction)
+	return c
+}
